@@ -175,7 +175,9 @@ class _BlackbirdPrinter(StrPrinter):
 
 def sympy_to_blackbird(expr):
     """Prints a SymPy expression such that it denotes the same expression in Blackbird."""
-    return _BlackbirdPrinter().doprint(expr)
+    # print terms and factors in the order in which the expression stores them: the default term
+    # ordering of the string printer breaks ties (e.g., between x and x**1.0) by hash order
+    return _BlackbirdPrinter({"order": "none"}).doprint(expr)
 
 
 def _format_symbolic(expr):
